@@ -523,11 +523,12 @@ def jobs(tier):
     #      enforced nor flagged)
     sp = importlib.util.spec_from_file_location("jobs_C15_for_C01", os.path.join(VERIF, "contracts", "C15", "jobs.py"))
     m15 = importlib.util.module_from_spec(sp); sp.loader.exec_module(m15)
-    j = m15.mostViolated_job()
-    j.name = "worklist_pick_removes_only_what_it_returns"
-    j.replay = replay_flag
-    j.note = (j.note + " " if j.note else "") + "[job of the C15 check, run here as well]"
-    js.append(j)
+    for fl in ("libvpsc", "libavoid"):
+        j = m15.mostViolated_job(fl)
+        j.name = ("libavoid_" if fl == "libavoid" else "") + "worklist_pick_removes_only_what_it_returns"
+        j.replay = replay_flag if fl == "libvpsc" else replay_flag_avoid
+        j.note = (j.note + " " if j.note else "") + "[job of the C15 check, run here as well]"
+        js.append(j)
     return js
 
 
@@ -562,4 +563,4 @@ EXPLANATION = ("[Both copies of the solver are under contract: libvpsc (jobs wit
                "IncSolver::satisfy, Solver::satisfy and Solver::refine (tail fragments, loop contracts, any m) leave no constraint with slack < -1e-10 on "
                "normal return from EVERY state the merge/split machinery could produce; solve()/IncSolver::solve() keep that up to their return and copy the "
                "positions last; addConstraint adds an inactive constraint and nothing else; one iteration of the merge/split loop of IncSolver::satisfy relaxes (flags) a constraint "
-               "only on evidence from its callees (cycle found, nothing to split, unsatisfiability reported); mostViolated() takes out of the work list exactly the constraint it returns (libvpsc copy).")
+               "only on evidence from its callees (cycle found, nothing to split, unsatisfiability reported); mostViolated() takes out of the work list exactly the constraint it returns (both copies).")
